@@ -8,7 +8,7 @@ package ledger
 // commitSyncer -> commitRound path; the only wall-clock input of that path, lastFlushTime, is
 // pinned per block, which turns "did balancesFlushInterval pass" into an explicit decision).
 //
-// Enumerated, for each deterministic block history (4 quick / 6 thorough; 20 / 24 rounds;
+// Enumerated, for each deterministic block history (4 quick / 7 thorough; 20 / 24 rounds;
 // CatchpointInterval 4; consensus A: CatchpointLookback 4, consensus B: lookback 6 + stalled
 // state proofs; account / asset / app / box churn with entries modified in consecutive rounds):
 //   flush schedules  = {every block, only when forced, every 2nd, every 3rd, at catchpoint
@@ -16,11 +16,19 @@ package ledger
 //                       decisions (k = 1 quick, 2 thorough) (+ deviations from "only when
 //                       forced" with k = 1 in thorough)
 //   x restart        = none, or Ledger.reloadLedger after round r for every r in 1..N
+//                       (the k = 2 schedules of the thorough tier: restart in {none, N/3, 2N/3}
+//                       and the first two trie configurations only)
 //   x trie memory    = trackerdb.TrieMemoryConfig in {default, {2 nodes/page, 1 cached node,
 //                       .95, threshold 1}, {4, 1, .5, 2}} (+ {2, default cache, .5, 64} and
 //                       {4, default, .95, 4} in thorough)
 //   node kind alternates between "archival, stores catchpoint files" and "non-archival, tracks
-//   labels only". Extra (not multiplied): LRU caches enabled (config default; the product runs
+//   labels only". In the quick tier the deviation schedules run under the default trie
+//   configuration only (base schedules: all configurations). Extra (not multiplied): block
+//   queue batches (rounds s..s+k-1 persisted at once => a single committedUpTo, commit ranges
+//   that overshoot catchpoint rounds; k in {3,7} quick, {2,3,5,7,10} thorough, every s, two
+//   schedules), catchpoint tracking switched on at the restart (node ran untracked before; the
+//   trie is rebuilt from the tables; every restart round, three schedules), MaxAcctLookback 2
+//   (1,2,8 thorough), LRU caches enabled (config default; the product runs
 //   with DisableLedgerLRUCache because allocating the 100k-entry cache buffers at every open
 //   dominates the run time), file backed databases with close+OpenLedger as restart.
 //
@@ -44,14 +52,19 @@ package ledger
 // Not covered: crash points inside a commit (C09's subject), consensus upgrades inside a
 // history, catchpoint intervals other than 4, histories longer than 24 rounds.
 //
-// Mutants (bin/mut C14 ...):
+// Mutants (bin/mut C14 ...), quick tier:
 //   M1 catchpointtracker.go accountsUpdateBalances: skip the delete-hash of a resource that
 //      was modified more than once in the commit range                        => DETECTED
+//      (first-stage trie root differs between every-block and lazier schedules)
 //   M2 catchpointtracker.go postCommitUnlocked: label built with the block hash of the last
 //      round of the commit range instead of the catchpoint round              => DETECTED
-//   M3 (own) catchpointtracker.go finishFirstStage: online history filter (onlineExcludeBefore)
-//      dropped, so the online-accounts hash covers whatever history the node happens to
-//      retain                                                                 => see report
+//      (needs a commit range that overshoots a catchpoint round: only the block-queue batch
+//      runs produce one; MISSED before those were added)
+//   M3 (own) catchpointtracker.go initializeHashes: the trie rebuild skips the KV hashes
+//      => DETECTED (needs: boxes exist + node restarted with tracking newly enabled)
+//   M4 (own) crypto/merkletrie/cache.go: revert of the C17 fix (evicted tail page not reloaded)
+//      => MISSED: 2400 runs under the 2-nodes-per-page / 1-cached-node configuration never
+//      reach the trie shape the bug needs; not claimed (C17 decides that property on the trie).
 
 import (
 	"fmt"
@@ -87,7 +100,7 @@ func (j *c14Job) describe(hs []*c14History) map[string]any {
 		}
 	}
 	return map[string]any{"engine": "c14", "history": hs[j.hist].Name, "schedule": j.sched, "flush_bits": sb.String(), "restart_after": j.restart, "burst_start": j.burstAt, "burst_len": j.burstN,
-		"reopen": j.reopen, "stored": j.node.Stored, "in_mem": j.node.InMem, "no_lru": j.node.NoLRU, "trie_config": j.cfgName}
+		"reopen": j.reopen, "late_enable": j.node.LateEnable, "max_acct_lookback": j.node.MaxAcctLookback, "stored": j.node.Stored, "in_mem": j.node.InMem, "no_lru": j.node.NoLRU, "trie_config": j.cfgName}
 }
 
 type c14Res struct {
@@ -301,26 +314,49 @@ func TestVerif_C14(t *testing.T) {
 		}
 	}
 
-	// Phases (sequential, because trackerdb.TrieMemoryConfig is a process global): first the
-	// five base schedules under every trie configuration, then the deviation schedules under
-	// every trie configuration, then the extras. A budget cap therefore cuts the least
-	// important part and the completed bound is reported.
+	// Phases (sequential, because trackerdb.TrieMemoryConfig is a process global), most important
+	// first, so that a budget cap cuts the least important part; the completed phases are
+	// reported in the evidence.
 	type phase struct {
-		name       string
-		cfg        int
-		schedFrom  int
-		schedTo    int
-		extras     bool
-		checkRefs  bool
-		restartAll bool
+		name      string
+		cfg       int
+		schedFrom int
+		schedTo   int
+		restarts  []int
+		extras    bool
+		checkRefs bool
 	}
+	allRestarts := make([]int, 0, rounds+1)
+	for rs := 0; rs <= rounds; rs++ {
+		allRestarts = append(allRestarts, rs)
+	}
+	someRestarts := []int{0, rounds / 3, 2 * rounds / 3}
+	// index ranges inside scheds: [0,5) base, then k=1 deviations from every-block, then k=2
+	// deviations from every-block (thorough), then k=1 deviations from forced-only (thorough)
+	k1From, k1To := 5, 5+rounds
+	k2From, k2To := k1To, k1To
+	if ve.Thorough() {
+		k2To = k2From + rounds*(rounds-1)/2
+	}
+	z1From, z1To := k2To, len(scheds)
 	var phases []phase
 	for ci := range cfgs {
-		phases = append(phases, phase{name: "base-schedules/" + cfgs[ci].name, cfg: ci, schedFrom: 0, schedTo: 5, checkRefs: ci == 0})
+		phases = append(phases, phase{name: "base-schedules x every-restart/" + cfgs[ci].name, cfg: ci, schedFrom: 0, schedTo: 5, restarts: allRestarts, checkRefs: ci == 0})
 	}
 	phases = append(phases, phase{name: "extras", cfg: 0, extras: true})
 	for ci := range cfgs {
-		phases = append(phases, phase{name: "deviation-schedules/" + cfgs[ci].name, cfg: ci, schedFrom: 5, schedTo: len(scheds)})
+		if ci > 0 && !ve.Thorough() {
+			break // quick: deviation schedules under the default trie configuration only
+		}
+		phases = append(phases, phase{name: "k=1 deviations from every-block x every-restart/" + cfgs[ci].name, cfg: ci, schedFrom: k1From, schedTo: k1To, restarts: allRestarts})
+	}
+	if ve.Thorough() {
+		for ci := range cfgs {
+			phases = append(phases, phase{name: "k=1 deviations from forced-only x every-restart/" + cfgs[ci].name, cfg: ci, schedFrom: z1From, schedTo: z1To, restarts: allRestarts})
+		}
+		for ci := 0; ci < 2; ci++ {
+			phases = append(phases, phase{name: "k=2 deviations from every-block x 3 restart points/" + cfgs[ci].name, cfg: ci, schedFrom: k2From, schedTo: k2To, restarts: someRestarts})
+		}
 	}
 	exhaustive := true
 	var completed []string
@@ -334,7 +370,7 @@ func TestVerif_C14(t *testing.T) {
 		var jobs []c14Job
 		for hi := range hs {
 			for si := ph.schedFrom; si < ph.schedTo; si++ {
-				for rs := 0; rs <= rounds; rs++ {
+				for _, rs := range ph.restarts {
 					jobs = append(jobs, c14Job{hist: hi, sched: schedNames[si], flush: scheds[si], restart: rs, cfgName: tc.name,
 						node: c14NodeCfg{Stored: (si+rs)%2 == 0, InMem: true, NoLRU: true}})
 				}
@@ -361,6 +397,12 @@ func TestVerif_C14(t *testing.T) {
 				for si := 0; si < ve.Pick(2, 5); si++ {
 					for _, rs := range rsts {
 						jobs = append(jobs, c14Job{hist: hi, sched: schedNames[si], flush: scheds[si], restart: rs, reopen: true, cfgName: tc.name, node: c14NodeCfg{Stored: (si+rs)%2 == 0, NoLRU: true}})
+					}
+				}
+				// catchpoint tracking enabled at the restart (trie rebuilt from the tables)
+				for _, si := range []int{0, 1, 2} {
+					for rs := 1; rs <= rounds-6; rs++ {
+						jobs = append(jobs, c14Job{hist: hi, sched: schedNames[si], flush: scheds[si], restart: rs, reopen: false, cfgName: tc.name, node: c14NodeCfg{Stored: (si+rs)%2 == 0, InMem: true, NoLRU: true, LateEnable: true}})
 					}
 				}
 				// block queue batches: rounds s..s+k-1 persisted at once (single committedUpTo)
